@@ -190,6 +190,20 @@ static int run_random(uint64_t seed, long n) {
     for (int k = 0; k < npos; ++k) pool.push_back(value_bytes(DT_FLOAT32, 3, {r.range(0, 6), r.range(0, 6), r.range(0, 6)}));
     for (int c = 0; c < 3 * s.nf; ++c) pos.corner_vals.push_back(pool[r.range(0, npos - 1)]);
     if (r.coin(1, 4) && s.nf > 1) for (int k = 0; k < 3; ++k) pos.corner_vals[3 + k] = pos.corner_vals[r.coin() ? k : (k + 1) % 3];   // duplicate / rotated copy of face 0
+    if (i % 8 == 3) {
+      // a regular grid of w x h quads over distinct positions, its triangles in a shuffled order and each with a random first corner: strips that
+      // stop at faces emitted earlier, in every direction
+      const int w = r.range(2, 6), h = r.range(2, 5);
+      std::vector<std::array<int, 3>> tris;
+      for (int y = 0; y < h; ++y) for (int x = 0; x < w; ++x) {
+        const int a = y * 7 + x, b = a + 1, c = a + 7, d = a + 8;
+        tris.push_back({a, b, c}); tris.push_back({b, d, c});
+      }
+      for (size_t k = tris.size() - 1; k > 0; --k) std::swap(tris[k], tris[(size_t)r.below(k + 1)]);
+      s.nf = (int)tris.size();
+      pos.corner_vals.clear();
+      for (auto &t : tris) { const int rot = r.range(0, 2); for (int k = 0; k < 3; ++k) { const int v = t[(k + rot) % 3]; pos.corner_vals.push_back(value_bytes(DT_FLOAT32, 3, {v % 7, v / 7, 2})); } }
+    }
     s.atts.push_back(pos);
     const int extra = r.range(0, 4);
     for (int e = 0; e < extra; ++e) {
